@@ -432,8 +432,8 @@ def correspond(ctx):
         gen_layout_population(rng, layout, top=(gi % 8 == 1))
         if gi % 3 == 0:
             if rng.random() < 0.5 or gi % 6 == 3:
-                for _ in range(rng.choice([2, 2, 5, 9]) + (gi % 6 == 3)):
-                    prs.slides.add_slide(prs.slide_layouts[6])
+                for k_ in range(rng.choice([2, 2, 5, 9]) + (gi % 6 == 3)):
+                    prs.slides.add_slide(prs.slide_layouts[6]).shapes.add_textbox(0, 0, 9, 9).text_frame.text = "slide %d" % k_
             b = io.BytesIO(); prs.save(b); b.seek(0)
             r = rng.random()
             if gi % 6 == 3 and len(prs.slides._sldIdLst) >= 2:
@@ -449,6 +449,11 @@ def correspond(ctx):
                 b = io.BytesIO(rid_gap(b.getvalue(), rng)); ctx.count("relationship-id-gap-decks")
             prs = Presentation(b)
             layout = [l for l in prs.slide_layouts if l.name == layout.name][0]
+            early_save = gi % 6 == 3 and gi % 12 == 3
+            if early_save:
+                # the deck is saved BEFORE its slides are looked at (their parts are renamed at the first look), slides are
+                # added, it is saved again: the second file must hold the slides in the order and with the content in memory
+                prs.save(io.BytesIO()); ctx.count("saved-before-first-look-at-slides")
         for rep in range(rng.randint(1, 3)):
             slide = check_add_slide(ctx, prs, layout, rng, f"generated#{gi}", lines, impl, metas)
             if slide is None:
@@ -460,6 +465,18 @@ def correspond(ctx):
                     gen_notes_master(rng, prs)
                     ctx.count("generated-notes-master")
                 check_notes(ctx, prs, slide, f"generated#{gi}", lines, impl, metas)
+        if gi % 3 == 0:
+            # what the saved file holds: the slides of the deck in presentation order, each with its own content
+            def sig(p_):
+                return [(s_.slide_layout.name, [(sh.shape_id, sh.name, sh.has_text_frame and sh.text_frame.text) for sh in s_.shapes]) for s_ in p_.slides]
+            try:
+                bb = io.BytesIO(); prs.save(bb)
+                got, want = sig(Presentation(io.BytesIO(bb.getvalue()))), sig(prs)
+            except Exception as e:  # noqa
+                got, want = f"{type(e).__name__}: {str(e)[:100]}", None
+            if got != want:
+                ctx.fail("other-slide-touched", f"generated#{gi}: after the additions the saved deck re-opens with slides {str(got)[:300]}; in memory they are {str(want)[:300]}",
+                         {"deck": f"generated#{gi}", "what": "saved deck after add_slide"})
     # every placeholder type once WITHOUT geometry of its own (all four readings come from the master's counterpart of the
     # mapped type - or are None where the master has none), and once with it: in every run, whatever the seed
     for own in (False, True):
